@@ -10,12 +10,15 @@ git checkout -q -- . && git clean -fdq
 T=$(python3 -c "import json;m=json.load(open('$S/meta.json'));d=m.get('demo_test') or m.get('demonstration',{}).get('test');print(d.split('::')[-1])")
 DEMO=$S/demo.diff; [ -f "$DEMO" ] || DEMO=$S/demonstration.diff
 git apply "$DEMO" || { echo "demo does not apply"; exit 3; }
-r1=$(cargo test --offline --lib "$T" 2>&1 | grep "^test result" | head -1)
+r1=$(unshare -n sh -c "ip link set lo up 2>/dev/null; cargo test --offline --lib $T" 2>&1 | grep "^test result" | head -1)
 git apply "$S/patch.diff" || { echo "patch does not apply on top of demo"; exit 3; }
-r2=$(cargo test --offline --lib "$T" 2>&1 | grep "^test result" | head -1)
+r2=$(unshare -n sh -c "ip link set lo up 2>/dev/null; cargo test --offline --lib $T" 2>&1 | grep "^test result" | head -1)
 git checkout -q -- . && git clean -fdq
 git apply "$S/patch.diff"
-r3=$(cargo test --workspace --no-fail-fast --offline 2>&1 | grep "^test result" | tr '\n' '|')
+# the tests bind fixed UDP ports on localhost: run the suite in its own network namespace (other jobs run tests at the same
+# time), once more if it fails
+r3=$(unshare -n sh -c 'ip link set lo up 2>/dev/null; cargo test --workspace --no-fail-fast --offline' 2>&1 | grep "^test result" | tr '\n' '|')
+case "$r3" in *FAILED*) r3=$(unshare -n sh -c 'ip link set lo up 2>/dev/null; cargo test --workspace --no-fail-fast --offline' 2>&1 | grep "^test result" | tr '\n' '|');; esac
 git checkout -q -- . && git clean -fdq
 python3 - "$S" "$T" "$r1" "$r2" "$r3" <<'PY'
 import json,sys
